@@ -12,6 +12,9 @@ CHECKS = {
  "C02": dict(engine="E2", technique="explicit-state BFS of the cut graph (node = offset + exact concrete state, edge = next read length) covering all 2^(n-1) segmentations of each stream",
    text="For every stream of the corpus all segmentations are covered as paths of the exhaustively explored cut graph of the real channel/parser/receiver; all terminal observations must coincide.",
    note="merging only on byte-identical pickled state; node cap reported if hit; one fixed thread schedule", ref="DESIGN.md §4 C02"),
+ "C06": dict(engine="E2", technique="exhaustive boundary enumeration of limits x sizes x read sizes + explicit-state token BFS under tiny limits on the real parser, against the reference verdict and a consumption bound",
+   text="Every case of the boundary sweeps (head length vs header limit at -1/0/+1, declared and chunked body sizes around the body limit, unterminated lines past tiny limits, numbers of up to 10^5 digits, odd targets) x read sizes {1,7,8192}, and every token sequence up to the stated depth under limits (header 24, body 8), runs on the real server: refused messages never reach the application, exactly one well-formed 400/413/431/501 is sent and the socket closed, no exception escapes an event handler, nothing hangs, and consumption stops within one read of crossing the limit.",
+   note="lookahead 0; one fixed schedule; a 20 s watchdog defines 'hang'", ref="DESIGN.md §4 C06"),
  "C10": dict(engine="E4", technique="language comparison on automata: DFA derived from the compiled patterns + call-site wrapper, exhaustive BFS of the product with the RFC grammar DFA; model bound to the code by exhaustive conformance runs against the real call sites",
    text="For each lexical gate the accepted language (as a DFA derived from the pattern source and the call-site wrapper, conformance-checked against the real parse_header / ChunkedReceiver / crack_first_line on all strings up to length n over byte-class representatives and on every byte at every seed position) is compared with the RFC grammar DFA by exhaustive search of the product automaton: equality is decided for strings of every length; numeric conversion is exercised at 1..25, 4299..4301, 5000, 10^4, 10^5 digits.",
    note="regularity; byte-class abstraction (bytes not separated by any set of model or grammar are interchangeable); wrapper models are hand-written but conformance-checked", ref="DESIGN.md §4 C10, §2 E4"),
